@@ -98,6 +98,12 @@ H("c01_separator_integer", "writer.rs", SEPP, SEP, "all i16 integers: separator 
 H("c01_separator_reference", "writer.rs", SEPP, SEP, "references with id, generation 0..=255: separator predicates agree with the first/last byte emitted", timeout=900, mem_gb=10)
 H("c01_separator_name", "writer.rs", {"C01": Q, "C03": Q, "C14": Q}, ["writer::Writer::need_separator", "writer::Writer::need_end_separator", "writer::Writer::write_name"],
   "all 1-byte names: separator predicates agree with the first/last byte emitted", timeout=900, mem_gb=8)
+AR = ["writer::Writer::write_array", "writer::Writer::need_separator", "writer::Writer::write_object"]
+H("c01_array_int_int", "writer.rs", SEPP, AR, "array of two integers, all i8 x i8: two separated tokens that read back", timeout=900, mem_gb=8)
+for v in ("null", "true", "int"):
+    H(f"c01_array_name_then_{v}", "writer.rs", SEPP, AR, f"array [/n {v}] for every regular 1-byte name n: name and following token separated, second token spelled correctly", timeout=900, mem_gb=10)
+H("c01_array_scalar_pairs", "writer.rs", SEPP, AR, "[true N], [null null], [3 0 R N] for N in 0..=9: exact bytes", timeout=900, mem_gb=8)
+H("c01_keywords_and_reference", "writer.rs", SEPP, ["writer::Writer::write_object"], "null / true / false spellings; references for all u16 ids x u8 generations read back as 'id gen R'", timeout=900, mem_gb=8)
 H("c01_hexstr_2", "writer.rs", WK, ["writer::Writer::write_string"], "all hex strings of 2 bytes", timeout=400, mem_gb=6)
 H("c01_int_i16", "writer.rs", WK, ["writer::Writer::write_object"], "all i16 integers read back by a decimal reader", timeout=600, mem_gb=8)
 H("c01_int_i64", "writer.rs", WKX, ["writer::Writer::write_object"], "all i64 integers", timeout=2700, mem_gb=10)
@@ -117,6 +123,8 @@ for v, d in (("1_4", "{1,4} (gap of two ids)"), ("2", "{2} (gap before and after
 H("c03_write_xref_subsets4", "writer.rs", {"C03": X}, ["writer::Writer::write_xref"], "all 16 subsets of ids 1..=4", timeout=1800, mem_gb=12)
 H("c03_write_xref_gaps6", "writer.rs", {"C03": X}, ["writer::Writer::write_xref"], "selected subsets of ids 1..=6", timeout=1800, mem_gb=12)
 H("c03_xref_stream_rows", "writer.rs", {"C03": X}, ["writer::Writer::create_xref_steam"], "all 16 subsets of ids 1..=4", timeout=1800, mem_gb=12)
+H("c14_encode_stack_no_operands", "content.rs", {"C14": Q}, ["content::Content::encode"], "two operand-less operations held in a stack array: 'q' LF 'Q'", timeout=600, mem_gb=8)
+H("c14_encode_stack_int_operand", "content.rs", {"C14": X}, ["content::Content::encode", "writer::Writer::write_object"], "one operation with one integer operand, all i8 values: '<int> w'", timeout=900, mem_gb=10)
 H("c14_encode_two_ops", "content.rs", {"C14": X}, ["content::Content::encode"], "two operations with symbolic operands", timeout=1800, mem_gb=12, stubs=CONTAINS)
 H("c14_encode_no_operands", "content.rs", {"C14": X}, ["content::Content::encode"], "one or two operand-less operations", timeout=600, mem_gb=6)
 
